@@ -153,7 +153,7 @@ def parse(out):
     res = {"checks": checks}
     m = re.search(r"^VERIFICATION:- (\w+)", out, re.M)
     res["verdict"] = m.group(1) if m else None
-    res["oom"] = ("out of memory" in out) or ("std::bad_alloc" in out) or ("Status: ERROR" in out)
+    res["oom"] = ("out of memory" in out.lower()) or ("std::bad_alloc" in out) or ("Status: ERROR" in out)
     rt = {}
     for k, v in re.findall(r"^Runtime ([A-Za-z ]+): ([0-9.e+-]+)s", out, re.M):
         rt[k.strip()] = rt.get(k.strip(), 0.0) + float(v)
@@ -321,7 +321,8 @@ def run_jobs(jobs, logdir, total_mem_gb=52, max_workers=14):
 # executed natively against /repo (dev profile, then release).
 
 def replay(job, replay_root):
-    """Returns (reproduced: bool|None, artifact_dir, detail)."""
+    """Kani concrete playback (print mode) -> unit tests appended to a scratch copy of the harness
+    crate -> executed natively against /repo.  Returns (reproduced: bool|None, artifact_dir, detail)."""
     safe = re.sub(r"[^A-Za-z0-9_.=,-]", "_", job.name)
     art = os.path.join(replay_root, safe)
     if os.path.exists(art):
@@ -329,23 +330,34 @@ def replay(job, replay_root):
     os.makedirs(replay_root, exist_ok=True)
     shutil.copytree(crate_dir(job), art, ignore=shutil.ignore_patterns("target"))
     env = _env_for(job)
-    tdir = os.path.join(WORK, "target", "replay-" + job.config_key())
-    cmd = ["cargo", "kani", "-Z", "concrete-playback", "--concrete-playback=inplace", "--harness", job.harness,
-           "--exact", "--target-dir", tdir]
+    cmd = ["cargo", "kani", "-Z", "concrete-playback", "--concrete-playback=print", "--harness", job.harness,
+           "--exact", "--target-dir", target_dir(job)]
     if job.stubbing:
         cmd += ["-Z", "stubbing"]
     cmd += list(job.extra_args)
     if job.unwindset:
         cmd += ["-Z", "unstable-options", "--cbmc-args", "--unwindset", job.unwindset]
-    p = subprocess.run(cmd, cwd=art, env=env, stdout=subprocess.PIPE, stderr=subprocess.STDOUT, text=True,
-                       preexec_fn=_limit(max(job.mem_gb, 12)), timeout=job.timeout * 2 + 600)
+    p = subprocess.run(cmd, cwd=crate_dir(job), env=env, stdout=subprocess.PIPE, stderr=subprocess.STDOUT, text=True,
+                       preexec_fn=_limit(max(job.mem_gb * 2, 16)), timeout=job.timeout * 2 + 600)
     open(os.path.join(art, "playback-gen.log"), "w").write(p.stdout)
-    src = "".join(open(os.path.join(dp, f)).read() for dp, _, fs in os.walk(os.path.join(art, "src")) for f in fs)
-    tests = re.findall(r"fn (kani_concrete_playback_\w+)", src)
+    blocks = re.findall(r"((?:///[^\n]*\n|\n)*#\[test\]\nfn (kani_concrete_playback_\w+)\(\) \{.*?\n\}\n)", p.stdout, re.S)
+    tests, code = [], []
+    for text, name in blocks:
+        if "Check for `cover`" in text:
+            continue  # satisfied covers are reachability witnesses, not failures
+        if name in tests:
+            continue
+        tests.append(name)
+        code.append(text)
     meta = {"harness": job.harness, "env": job.env, "cfgs": job.cfgs, "tests": tests, "crate": job.crate}
     json.dump(meta, open(os.path.join(art, "replay.json"), "w"), indent=1)
     if not tests:
         return None, art, "concrete playback produced no test"
+    mod = job.harness.split("::")[0]
+    path = os.path.join(art, "src", mod + ".rs")
+    with open(path, "a") as f:
+        f.write("\n// ---- generated by Kani concrete playback (solver counterexample) ----\n")
+        f.write("\n".join(code))
     return run_replay(art)
 
 
@@ -374,6 +386,9 @@ def run_replay(art):
         tag = "release" if profile else "dev"
         open(os.path.join(art, "playback-%s.log" % tag), "w").write(p.stdout)
         failed = re.findall(r"^test (\S+) \.\.\. FAILED", p.stdout, re.M)
+        if "error: could not compile" in p.stdout or ("test result:" not in p.stdout):
+            detail.append("%s: playback did not build/run (see playback-%s.log)" % (tag, tag))
+            continue
         m = re.search(r"panicked at ([^\n]*)\n([^\n]*)", p.stdout)
         detail.append("%s: %s%s" % (tag, "reproduced (" + ", ".join(failed) + ")" if failed else "did not fail",
                                     (" — " + m.group(1) + " " + m.group(2)) if m and failed else ""))
